@@ -57,7 +57,17 @@ Names == DOMAIN Catalogue
 
 (* descriptors that are NOT lattices, kept to document the side condition of C01:
    DomPair over a key lattice that is not totally ordered fails associativity. *)
-NonLattice == [ dom_set_set |-> TDomPair(TSet({0, 1}), TSet({0, 1})) ]
+NonLattice ==
+    [ dom_set_set |-> TDomPair(TSet({0, 1}), TSet(Small)),                 \* key: subsets of {0,1}
+      dom_vc_max  |-> TDomPair(TMap(Keys, TMax(Num2)), TMax(Num)) ]          \* key: a 2-entry "vector clock"
+
+(* These descriptors are nevertheless SHIPPED and documented (dom_pair.rs): a strictly greater
+   key wins; equal OR incomparable keys merge both key and value; partial_cmp is the key's
+   comparison unless the keys are equal, then the value's.  Join/Leq/Changed/Cmp/IsBot of
+   Lattice.tla define exactly that, so C04 (result), C02 (flag) and the code-defined part of
+   C03 (==, partial_cmp, is_bot, is_top, Default) are checked for them too -- only the C01
+   laws are not (NonLatticeDocumented records why: associativity fails). *)
+Desc(n) == IF n \in DOMAIN Catalogue THEN Catalogue[n] ELSE NonLattice[n]
 
 (* bimorphism catalogue: name -> function, argument descriptors, output descriptor.
    Output descriptors are only used through Abs/Join (never Reps). *)
